@@ -13,7 +13,9 @@ RULE = ('every operation with an inplace flag (filter by ids / by function, tran
         "receiver's own id array), transpose, copy, head, subsample (by count / by id), partition, collapse, merge, concat, align_to) and "
         'the two mutators add_metadata / del_metadata, x both axes (remove_empty/del_metadata also whole) x layout recipes that leave the '
         'receiver in CSR or CSC (unsorted indices, histories) x metadata of each axis in {none, flat, with nested lists} for receiver and '
-        'argument table. Per call: deep snapshots of receiver and argument before/after, identity of the returned object, in-place '
+        'argument table; flag operations also after an earlier IN-PLACE thresholding transform of the receiver (history), with user '
+        'functions that look at all the values they are handed (rankdata, v - min(v), len(v)); collapse also one_to_many (divide / add) '
+        'on tables with 1-2 vectors or one dominant vector whose ids belong to two groups. Per call: deep snapshots of receiver and argument before/after, identity of the returned object, in-place '
         'content == non-in-place content (two fresh builds), the real aliasing relation (np.shares_memory on matrix/id arrays, `is` on '
         'metadata dicts and nested values) against the Share/Fresh pattern of the Coq effect model, the receiver layout afterwards; then '
         'the result is mutated in place (transform, add_metadata, del_metadata, dict item assignment, update_ids, matrix_data.data[:] = .., '
@@ -42,7 +44,28 @@ TF = {
     'plus1': lambda v, i, m: v + 1,
     'negate': lambda v, i, m: -v,
     'zero_first': lambda v, i, m: np.where(np.arange(len(v)) == 0, 0.0, v),
+    # functions that look at ALL the values they are handed (stored zeros would change their answer)
+    'sub_min': lambda v, i, m: (v - v.min() + 1) if len(v) else v,
+    'count': lambda v, i, m: np.full(len(v), float(len(v))),
 }
+THRESHOLD = 2.0
+
+
+def _apply_hist(t, hist):
+    """an earlier IN-PLACE operation in the receiver's history: ['threshold', axis] zeroes the values below THRESHOLD
+    (the kernel writes zeros into the stored values; whether they stay stored is the library's business)"""
+    if hist and hist[0] == 'threshold':
+        t.transform(lambda v, i, m: np.where(v < THRESHOLD, 0.0, v), axis=hist[1], inplace=True)
+    return t
+
+
+def _eff_spec(c):
+    """content of the receiver when the operation under test starts"""
+    s = c['spec']
+    if c.get('hist') and c['hist'][0] == 'threshold':
+        return dict(s, mat=[[0.0 if v < THRESHOLD else v for v in row] for row in s['mat']])
+    return s
+
 _STASH = {}
 
 
@@ -146,6 +169,14 @@ def _call(c, t, other):
     if op == 'partition':
         return [tab for _, tab in t.partition(_group_f([str(i) for i in t.ids(axis=ax)]), axis=ax)]
     if op == 'collapse':
+        if a.get('otm'):
+            # one-to-many: every other id belongs to two groups
+            groups = {str(i): (['grpA', 'grpB'] if k % 2 == 0 else ['grpB']) for k, i in enumerate(t.ids(axis=ax))}
+
+            def otm_f(id_, md):
+                for g in groups[str(id_)]:
+                    yield (('path', g), g)
+            return t.collapse(otm_f, norm=False, one_to_many=True, one_to_many_mode=a['otm'], axis=ax)
         return t.collapse(_group_f([str(i) for i in t.ids(axis=ax)]), norm=False, axis=ax)
     if op == 'merge':
         return t.merge(other)
@@ -253,7 +284,9 @@ def run_impl(c):
 
 def _build_pair(c):
     # 'pre': a prior history that used to leave all-empty metadata dicts behind (F40, see harness/c06.py apply_pre)
-    return apply_pre(T.build(c['spec']), c.get('pre')), (T.build(c['other']) if c.get('other') else None)
+    # 'hist': an earlier in-place transform of the receiver (see _apply_hist)
+    return (_apply_hist(apply_pre(T.build(c['spec']), c.get('pre')), c.get('hist')),
+            (T.build(c['other']) if c.get('other') else None))
 
 
 def _content_kind(c):
@@ -357,7 +390,7 @@ def encode(c):
     content = []
     if _content_kind(c):
         cd = _coder(c)
-        tb = cd.table(T.spec_content(c['spec']))
+        tb = cd.table(T.spec_content(_eff_spec(c)))
         if c['op'] == 'filter':
             content = [0, tb, [cd.id(i) for i in a['keep']], int(a['invert']), AX3[c['axis']]]
         elif c['op'] == 'remove_empty':
@@ -557,6 +590,44 @@ def _case(rng, op, axis=None, inplace=False, md=None, lay=None):
     return c
 
 
+def _with_history(rng, c, hist_axis=None):
+    """give the receiver an earlier in-place thresholding transform that really zeroes something and leaves something"""
+    m = c['spec']['mat']
+    m[0][0], m[0][1] = 1.0, 5.0
+    m[-1][-1] = 1.0 if len(m) > 1 else m[-1][-1]
+    c['hist'] = ['threshold', hist_axis or rng.choice(['observation', 'sample'])]
+    if c['op'] == 'update_ids' or c['op'] == 'filter':
+        pass
+    return c
+
+
+def _otm_case(rng, axis, shape, lay, mode='divide'):
+    """collapse(one_to_many=True): small tables / one dominant vector, ids that belong to two groups"""
+    md = _mdpair(rng)
+    # one_to_many needs metadata on the collapsed axis (zip(ids, None) is a TypeError in table.py collapse)
+    k = 0 if axis == 'observation' else 1
+    if md[k] == 'none':
+        md[k] = rng.choice(['flat', 'nested'])
+    if shape == 'tiny':
+        dims = dict(min_r=1, max_r=2, min_c=2, max_c=4) if axis == 'observation' else dict(min_r=2, max_r=4, min_c=1, max_c=2)
+    else:
+        dims = dict(min_r=3, max_r=5, min_c=3, max_c=5)
+    spec = _spec(rng, md, values='counts', lay=lay, **dims)
+    spec['layout'] = list(lay)
+    m = spec['mat']
+    if shape == 'dominant':   # the first vector of the axis is full, the others hold one entry each
+        r, k = len(m), len(m[0])
+        for i in range(r):
+            for j in range(k):
+                first = (i == 0) if axis == 'observation' else (j == 0)
+                m[i][j] = float(2 * (i + j) + 2) if first or (i == j) else 0.0
+    else:
+        for i, row in enumerate(m):
+            for j in range(len(row)):
+                row[j] = float(2 * (i + j) + 2)
+    return {'op': 'collapse', 'spec': spec, 'axis': axis, 'md': md, 'args': {'otm': mode}}
+
+
 def gen(rng, tier):
     reps = 1 if tier == 'quick' else 8
     for _ in range(reps):
@@ -573,7 +644,39 @@ def gen(rng, tier):
                     yield _case(rng, op, None, rng.random() < 0.5, md=[mo, ms])
         for _ in range(300):
             op = rng.choice(OPS)
-            yield _case(rng, op, None, rng.random() < 0.5)
+            c = _case(rng, op, None, rng.random() < 0.5)
+            if op in FLAG_OPS and rng.random() < 0.3:
+                c = _with_history(rng, c)
+            yield c
+        # histories: an earlier in-place thresholding transform, then every flag operation in both variants - among
+        # them functions that look at all the values they are handed (rankdata, sub_min, count)
+        for op, f in (('rankdata', None), ('transform', 'sub_min'), ('transform', 'count'), ('transform', 'double'),
+                      ('norm', None), ('pa', None), ('filter', None), ('remove_empty', None), ('update_ids', None)):
+            for axis in ('observation', 'sample'):
+                for hax in ('observation', 'sample'):
+                    for inplace in (False, True):
+                        c = _case(rng, op, axis, inplace)
+                        if f:
+                            c['args']['f'] = f
+                        yield _with_history(rng, c, hax)
+        # refused update_ids (rename onto a retained id, two ids onto one name, strict and incomplete): the receiver
+        # must be exactly as before, in both variants
+        for axis in ('observation', 'sample'):
+            for inplace in (True, False):
+                for kind in ('onto_retained', 'two_to_one', 'onto_retained_last', 'strict_incomplete'):
+                    c = _case(rng, 'update_ids', axis, inplace)
+                    ids = list(c['spec']['oids'] if axis == 'observation' else c['spec']['sids'])
+                    c['args'] = {'onto_retained': {'id_map': [[ids[0], ids[-1]]], 'strict': False},
+                                 'two_to_one': {'id_map': [[ids[0], 'same'], [ids[1], 'same']], 'strict': False},
+                                 'onto_retained_last': {'id_map': [[ids[-1], ids[0]], ['ghost', 'g']], 'strict': False},
+                                 'strict_incomplete': {'id_map': [[i, i + 'x'] for i in ids[1:]], 'strict': True}}[kind]
+                    yield c
+        # collapse with one_to_many on small tables / a dominant vector, CSR and CSC receivers
+        for axis in ('observation', 'sample'):
+            for shape in ('tiny', 'tiny', 'dominant', 'full'):
+                for lay in (['csr'], ['csc'], ['csr', 'rowaccess'], ['dense']):
+                    yield _otm_case(rng, axis, shape, lay, 'divide')
+                yield _otm_case(rng, axis, shape, ['csr'], 'add')
 
 
 def nontrivial(c):
@@ -585,9 +688,13 @@ def classify(c):
     tags = ['op:%s%s' % (c['op'], '' if c['op'] not in FLAG_OPS else '/inplace=%s' % c.get('inplace')),
             'md:%s/%s' % tuple(c['md'])]
     try:
-        tags.append('repr:' + T.layout_info(T.build(c['spec'])))
+        tags.append('repr:' + T.layout_info(_build_pair(c)[0]))
     except Exception:
         tags.append('repr:unbuildable')
+    if c.get('hist'):
+        tags.append('history:%s(%s)' % tuple(c['hist']))
+    if c.get('args', {}).get('otm'):
+        tags.append('collapse:one_to_many/%s' % c['args']['otm'])
     o = _STASH.get(jhash(c))
     if isinstance(o, dict) and 'crash' not in o:
         tags.append('ret:%s' % o['ret'])
